@@ -179,10 +179,11 @@ func verifC27RefHost(rest string) (host, port string) {
 // allow-listed origin (scheme + host, and port when the entry names one) or
 // http localhost; an accepted URL is returned unchanged.
 //
-//verif:bound _vgi_return_to = scheme "://" P H S with scheme in {https, http, javascript, HTTPS}, H in {ok.example, port.example:8443, port.example, localhost, evil.com, ok.example.evil.com}, P 0..2 and S 0..1 ARBITRARY characters from {a . @ : \ / ? # % 1} (userinfo, port, backslash and fragment tricks); allow-list {https://ok.example (no port: any port matches), https://port.example:8443 (port named: only that port), http://localhost:3000 (the default)}
+//verif:bound _vgi_return_to = scheme "://" P H S with scheme in {https, http, javascript, HTTPS}, H in {ok.example, port.example:8443, port.example, localhost, evil.com, ok.example.evil.com, 127.0.0.1, 127.0.0.1.evil.com, localhost.evil.com} (IPv6 literals go through net/netip, which the engine does not model, and are outside the claim), P 0..2 and S 0..1 ARBITRARY characters from {a . @ : \ / ? # % 1} (userinfo, port, backslash and fragment tricks); allow-list {https://ok.example (no port: any port matches), https://port.example:8443 (port named: only that port), http://localhost:3000 (the default)}
 func verifH_C27_return_to() {
 	scheme := []string{"https", "http", "javascript", "HTTPS"}[verifChoice("scheme", 4)]
-	host := []string{"ok.example", "port.example:8443", "port.example", "localhost", "evil.com", "ok.example.evil.com"}[verifChoice("host", 6)]
+	host := []string{"ok.example", "port.example:8443", "port.example", "localhost", "evil.com", "ok.example.evil.com",
+		"127.0.0.1", "127.0.0.1.evil.com", "localhost.evil.com"}[verifChoice("host", 9)]
 	pre := verifNondetString("prefix", verifChoice("prefix.len", 3))
 	suf := verifNondetString("suffix", verifChoice("suffix.len", 2))
 	verifAssume(verifAllInSet(pre, verifC27URLAlphabet) && verifAllInSet(suf, verifC27URLAlphabet))
@@ -206,7 +207,7 @@ func verifH_C27_return_to() {
 	verifAssert(okScheme, "only http and https return URLs are accepted")
 	allowed := (lower == "https" && h == "ok.example") ||
 		(lower == "https" && h == "port.example" && p == "8443") ||
-		(lower == "http" && (h == "localhost" || h == "127.0.0.1"))
+		(lower == "http" && (h == "localhost" || h == "127.0.0.1" || h == "[::1]"))
 	verifAssert(allowed, "the host a browser navigates to is an allow-listed origin or http localhost")
 }
 
